@@ -16,6 +16,7 @@ def _k4():
         ('idg', 'g', 0), ('idg', 'g', 1), ('idg', 'g', 2), ('idg', 'g', 3),
         ('idgrm', 'g'),
         ('down', 's0'), ('up', 's0'), ('bl', 0, 1), ('bl', 0, 0),
+        ('srm', 's0'), ('sadd', 's0', 0), ('srm', 's1'), ('sadd', 's1', 0),
         ('alloc', 'a', 1), ('alloc', 'a', 0), ('noop',),
     )
     return cfg
